@@ -135,6 +135,8 @@ def _sig_sticky_escapes(case: dict, f: Failure) -> bool:
     return norm(via) == norm(direct)
 
 
+DECOMPOSE_KEY = ("text", "raw")  # several recorded findings in one document: see core.sig_hit
+
 SIGS = {
     "sticky_wrap_escapes": _sig_sticky_escapes,
     "semantic_sentence_start_unescaped": _sig_semantic_first,
